@@ -878,4 +878,202 @@ theorem unitless_latency_is_config_error (re : Str → Option (Str → Bool)) (f
 example : filterAndAnnotate (goOracle fun _ => none) [[⟨sName, false, [⟨[], [104]⟩]⟩]]
     [[⟨sAddLatency, [53]⟩]] [] = .error (.annoLatency [53]) := by decide
 
+/-! ## The effective latency offset (what the latency policies add to a measurement) -/
+
+/-- **"Carries the annotation", down to the map the latency policies read.** In a built group with
+a latency/random policy every alive set's offset map answers, for EVERY node of the pool: the
+annotation of the first filter line the node satisfies (0 when the group has no filter) if it is a
+member, and nothing if it is not — one entry per member, never a later line's value, never an entry
+for a node outside the pool. Under `fixed` no alive set (hence no offset) exists. -/
+theorem effective_offset_is_first_line_annotation (O : Oracle) (pv : PolicyVal) (filters : List Line)
+    (annos : List (List Param)) (pool : List Node) (g : Group)
+    (h : buildGroup O pv filters annos pool = .ok g) :
+    (groupOffsetTable g = none ↔ ∃ i, g.policy = .fixed i) ∧
+    ∀ t, groupOffsetTable g = some t →
+      (∀ i n, pool[i]? = some n →
+        mapGet t i = (if filters = [] then some 0
+                      else ((filters.zip annos).find? fun la => lineHolds O n la.1).map
+                        fun la => annoValue O la.2)) ∧
+      (∀ i, pool[i]? = none → mapGet t i = none) := by
+  have hf := (((group_built_iff O pv filters annos pool).1 g).mp h).2
+  have hp := (members_once_in_pool_order O filters annos pool g.members hf).2
+  obtain ⟨_, _, hr⟩ := accepted_result_is_meaning O filters annos pool g.members hf
+  constructor
+  · unfold groupOffsetTable
+    cases hpol : g.policy <;> simp [needsAliveState]
+  · intro t ht
+    have htt : t = offsetTable g.members := by
+      unfold groupOffsetTable at ht
+      split at ht
+      · exact (Option.some.inj ht).symm
+      · cases ht
+    subst htt
+    constructor
+    · intro i n hn
+      by_cases hfe : filters = []
+      · rw [if_pos hfe]
+        rw [if_pos hfe] at hr
+        exact (mapGet_offsetTable g.members hp i).1 0
+          (hr ▸ (mem_allMembers_iff pool i 0).mpr ⟨⟨n, hn⟩, rfl⟩)
+      · rw [if_neg hfe]
+        rw [if_neg hfe] at hr
+        cases hfind : ((filters.zip annos).find? fun la => lineHolds O n la.1) with
+        | some la =>
+          simp only [Option.map_some]
+          apply (mapGet_offsetTable g.members hp i).1
+          rw [hr]
+          exact (mem_specMembers_iff O _ pool i _).mpr ⟨n, hn, by rw [hfind]; rfl⟩
+        | none =>
+          simp only [Option.map_none]
+          apply (mapGet_offsetTable g.members hp i).2
+          intro v hv
+          rw [hr] at hv
+          obtain ⟨n', hn', hm⟩ := (mem_specMembers_iff O _ pool i v).mp hv
+          rw [hn] at hn'
+          obtain rfl := Option.some.inj hn'
+          rw [hfind] at hm
+          cases hm
+    · intro i hi
+      apply (mapGet_offsetTable g.members hp i).2
+      intro v hv
+      by_cases hfe : filters = []
+      · rw [if_pos hfe] at hr
+        rw [hr] at hv
+        obtain ⟨⟨n, hn⟩, _⟩ := (mem_allMembers_iff pool i v).mp hv
+        rw [hi] at hn; cases hn
+      · rw [if_neg hfe] at hr
+        rw [hr] at hv
+        obtain ⟨n, hn, _⟩ := (mem_specMembers_iff O _ pool i v).mp hv
+        rw [hi] at hn; cases hn
+
+-- the demo group under `min`: node 3 gets the 5 ms of the first line although it also satisfies the
+-- second (0) one; node 0 is no member and has no entry; under `fixed` there is no table at all
+example : ∃ g, buildGroup Demo.O (.str sMin) Demo.filters Demo.annos Demo.pool = .ok g ∧
+    ∃ t, groupOffsetTable g = some t ∧ mapGet t 3 = some 5000000 ∧ mapGet t 1 = some 0 ∧
+      mapGet t 0 = none ∧ mapGet t 9 = none :=
+  ⟨⟨.minLast, [(1, 0), (2, 0), (3, 5000000)]⟩, by decide, _, rfl, by decide, by decide, by decide, by decide⟩
+example : groupOffsetTable ⟨.fixed 0, [(1, 0), (2, 0), (3, 5000000)]⟩ = none := by decide
+-- why "listed once" matters: with a member listed twice the later annotation would win
+example : mapGet (offsetTable [(3, 5000000), (3, 7)]) 3 = some 7 := by decide
+
+/-! ## Group names → outbound ids -/
+
+/-- The outbound table is built iff the groups are, there are at most `OutboundUserDefinedMax`
+outbounds (`direct` and `block` included) and all names — `direct`, `block`, the groups — are
+pairwise distinct. -/
+theorem config_built_iff (O : Oracle) (pool : List Node) (nds : List NamedDef) :
+    (∃ r, buildConfig O pool nds = .ok r) ↔
+      (∃ gs, buildGroups O pool (nds.map (·.d)) = .ok gs) ∧ nds.length + 2 ≤ outboundUserDefinedMax ∧
+        (sDirect :: sBlock :: nds.map (·.name)).Nodup := by
+  unfold buildConfig
+  cases hb : buildGroups O pool (nds.map (·.d)) with
+  | error e => simp
+  | ok gs =>
+    have hlen : gs.length = nds.length := by
+      have := ((groups_built_iff O pool _ gs).mp hb).1
+      simpa using this
+    simp only [Except.ok.injEq, exists_eq', true_and]
+    by_cases hmany : 2 + gs.length > outboundUserDefinedMax
+    · rw [if_pos hmany]
+      simp only [reduceCtorEq, exists_false, false_iff, not_and]
+      intro hle; omega
+    · rw [if_neg hmany]
+      have hle : nds.length + 2 ≤ outboundUserDefinedMax := by omega
+      cases hn : nameIds (sDirect :: sBlock :: nds.map (·.name)) 0 [] with
+      | error e =>
+        simp only [reduceCtorEq, exists_false, false_iff, not_and]
+        intro _ hnd
+        have := (nameIds_ok_iff _ 0 [] _).mpr ⟨⟨hnd, by simp⟩, rfl⟩
+        rw [hn] at this; cases this
+      | ok m =>
+        have := ((nameIds_ok_iff _ 0 [] m).mp hn).1.1
+        exact ⟨fun _ => ⟨hle, this⟩, fun _ => ⟨_, rfl⟩⟩
+
+example : (buildConfig Demo.O Demo.pool Demo.twoGroups).toOption.isSome = true := by decide
+
+/-- **A group name resolves to that group, and that group holds what its own definition means.**
+In a built configuration `direct` is id 0, `block` id 1, the k-th group id 2+k (all below 256, so
+`uint8` does not wrap), two groups never share an id, and the group stored at position k has
+exactly the members its definition denotes over the pool. -/
+theorem group_name_resolves_to_own_members (O : Oracle) (pool : List Node) (nds : List NamedDef)
+    (gs : List Group) (m : List (Str × Nat)) (h : buildConfig O pool nds = .ok (gs, m)) :
+    idOf m sDirect = some 0 ∧ idOf m sBlock = some 1 ∧
+    ∀ k (hk : k < nds.length), idOf m nds[k].name = some (2 + k) ∧ 2 + k < 256 ∧
+      ∃ g, gs[k]? = some g ∧ DefValid O (nds[k].d.filters.zip nds[k].d.annos) ∧
+        g.members = (if nds[k].d.filters = [] then pool.zipIdx.map (fun ni => (ni.2, 0))
+                     else specMembers O (nds[k].d.filters.zip nds[k].d.annos) pool) := by
+  have hbuilt := (config_built_iff O pool nds).mp ⟨_, h⟩
+  obtain ⟨_, hle, hnd⟩ := hbuilt
+  unfold buildConfig at h
+  cases hb : buildGroups O pool (nds.map (·.d)) with
+  | error e => rw [hb] at h; cases h
+  | ok gs' =>
+    rw [hb] at h
+    simp only at h
+    split at h
+    · cases h
+    · cases hn : nameIds (sDirect :: sBlock :: nds.map (·.name)) 0 [] with
+      | error e => rw [hn] at h; cases h
+      | ok m' =>
+        rw [hn] at h
+        simp only [Except.ok.injEq, Prod.mk.injEq] at h
+        obtain ⟨rfl, rfl⟩ := h
+        have hm := ((nameIds_ok_iff _ 0 [] m').mp hn).2
+        rw [List.nil_append] at hm
+        subst hm
+        have hid := idOf_zipIdx (sDirect :: sBlock :: nds.map (·.name)) 0
+        refine ⟨?_, ?_, ?_⟩
+        · simpa using hid 0 (by simp) hnd
+        · simpa using hid 1 (by simp) hnd
+        · intro k hk
+          have hlen := ((groups_built_iff O pool _ gs').mp hb).1
+          have hall := group_in_sequence_is_meaning O pool _ gs' hb
+          have hk2 : k + 2 < (sDirect :: sBlock :: nds.map (·.name)).length := by simp; omega
+          have h1 := hid (k + 2) hk2 hnd
+          simp only [List.getElem_cons_succ, List.getElem_map, Nat.zero_add] at h1
+          have hlt : 2 + k < 256 := by unfold outboundUserDefinedMax at hle; omega
+          refine ⟨by rw [h1, Nat.add_comm k 2, Nat.mod_eq_of_lt hlt], hlt, ?_⟩
+          have hkg : k < gs'.length := by rw [hlen]; simpa using hk
+          refine ⟨gs'[k], List.getElem?_eq_getElem hkg, ?_⟩
+          have hmem : ((nds.map (·.d))[k]'(by simpa using hk), gs'[k]) ∈ (nds.map (·.d)).zip gs' := by
+            rw [List.mem_iff_getElem]
+            exact ⟨k, by simp only [List.length_zip, List.length_map]; exact Nat.lt_min.mpr ⟨hk, hkg⟩, by simp⟩
+          have := hall _ hmem
+          simpa using this
+
+-- two groups: `g1` resolves to id 3 and holds the filtered members, not those of `g0`
+example : ((buildConfig Demo.O Demo.pool Demo.twoGroups).toOption.map fun r => idOf r.2 [103, 49]) = some (some 3) ∧
+    ((buildConfig Demo.O Demo.pool Demo.twoGroups).toOption.map fun r => idOf r.2 [103, 48]) = some (some 2) ∧
+    ((buildConfig Demo.O Demo.pool Demo.twoGroups).toOption.map fun r => idOf r.2 sDirect) = some (some 0) ∧
+    ((buildConfig Demo.O Demo.pool Demo.twoGroups).toOption.map fun r => r.1.map (·.members))
+      = some [[(0, 0), (1, 0), (2, 0), (3, 0)], [(1, 0), (2, 0), (3, 5000000)]] := by decide
+
+/-- A group name used twice, or a group called `direct` / `block`, is a configuration error —
+whatever the definitions are (no group silently shadows another). -/
+theorem duplicate_or_reserved_group_name_rejected (O : Oracle) (pool : List Node) (nds : List NamedDef)
+    (hdup : ¬ (sDirect :: sBlock :: nds.map (·.name)).Nodup) :
+    ∃ e, buildConfig O pool nds = .error e := by
+  cases hb : buildConfig O pool nds with
+  | error e => exact ⟨e, rfl⟩
+  | ok r => exact absurd ((config_built_iff O pool nds).mp ⟨r, hb⟩).2.2 hdup
+
+example : buildConfig Demo.O Demo.pool
+      [⟨[103, 48], ⟨.str sMin, [], []⟩⟩, ⟨sBlock, ⟨.str sRandom, [], []⟩⟩] = .error (.dupName sBlock) ∧
+    buildConfig Demo.O Demo.pool
+      [⟨[103, 48], ⟨.str sMin, [], []⟩⟩, ⟨[103, 48], ⟨.str sRandom, [], []⟩⟩] = .error (.dupName [103, 48]) := by
+  decide
+
+/-- More groups than outbound ids (`OutboundUserDefinedMax` = 251 outbounds, i.e. 249 groups) is a
+configuration error; exactly 249 buildable, distinctly named groups are accepted (`config_built_iff`). -/
+theorem too_many_groups_rejected (O : Oracle) (pool : List Node) (nds : List NamedDef)
+    (hmany : nds.length + 2 > outboundUserDefinedMax) :
+    ∃ e, buildConfig O pool nds = .error e := by
+  cases hb : buildConfig O pool nds with
+  | error e => exact ⟨e, rfl⟩
+  | ok r => exact absurd ((config_built_iff O pool nds).mp ⟨r, hb⟩).2.1 (by omega)
+
+-- 250 groups are too many (the hypothesis is satisfiable); three groups are not
+example : ((List.range 250).map fun k => (⟨[103, k], ⟨.str sMin, [], []⟩⟩ : NamedDef)).length + 2
+    > outboundUserDefinedMax := by simp [outboundUserDefinedMax]
+
 end DaeVerif.C14.Props
